@@ -192,15 +192,14 @@ theorem andThen_pres {α : Type} (P : α → Prop) (x : α × Bool) (g : α → 
 
 /-! ### `reset_recon` -/
 
-theorem renew_ne_nil {θ : Type} (b : Nat) : ∀ (ps : List (PId × θ)) (xs : List θ), ps ≠ [] → renew b ps xs ≠ []
-  | [], _, h => absurd rfl h
-  | (_, _) :: _, [], _ => by simp [renew]
-  | (_, _) :: _, _ :: _, _ => by simp [renew]
+theorem renew_ne_nil {θ : Type} (b : Nat) : ∀ (ps : List (PId × θ)) (xs : List θ) (keep : List Bool), ps ≠ [] → renew b ps xs keep ≠ []
+  | [], _, _, h => absurd rfl h
+  | (_, _) :: _, _, _, _ => by simp [renew]
 
 theorem nonempty_baseReset {θ μ σ : Type} (dflt : List (String × Nat)) (r : Recon θ μ σ) (h : r.nonempty) :
     (baseReset dflt r).nonempty := by
   obtain ⟨a, b, c⟩ := h
-  exact ⟨renew_ne_nil _ _ _ a, renew_ne_nil _ _ _ b, renew_ne_nil _ _ _ c⟩
+  exact ⟨renew_ne_nil _ _ _ _ a, renew_ne_nil _ _ _ _ b, renew_ne_nil _ _ _ _ c⟩
 
 /-- over the models in `ks`: if nothing raised, every model in `ks` went through a successful `reset_optimizer` -/
 theorem overKeys_reset_success {θ μ σ : Type} (mk : Nat → Nat → σ × Nat) :
